@@ -93,6 +93,37 @@ def intsGt (a b : List Nat) : Bool :=
 /-- `not (a > b)` on `to_int` images — the order used to sort -/
 def intsLe (a b : List Nat) : Bool := !intsGt a b
 
+/-- M: `VariantSourceSet.__gt__(self, other)`: `self == other` (set equality) first, then the
+two `to_int()` lists; `none` = KeyError raised by `to_int` -/
+def srcGt (o : Order) (a b : SrcSet) : Option Bool :=
+  if sameSet a b then some false
+  else
+    match toInt o a, toInt o b with
+    | some x, some y => some (intsGt x y)
+    | _, _ => none
+
+/-- the keys of `levels_map` that `to_int` / `__gt__` look up for the source sets `sets`:
+`frozenset(s)` for each set and every element of each set -/
+def keysOf (sets : List SrcSet) : List OKey :=
+  sets.map OKey.many ++ sets.flatMap fun s => s.map OKey.one
+
+/-- the level map is injective on the keys `ks` (two keys with the same level are the same
+key) — decidable; holds for every `ks` when the levels of `o` are pairwise distinct
+(`Order.levelsDistinct`), which every order built by the CLIs satisfies -/
+def Order.injOn (o : Order) (ks : List OKey) : Bool :=
+  ks.all fun k1 => ks.all fun k2 =>
+    match o.level? k1, o.level? k2 with
+    | some n, some m => n != m || k1.same k2
+    | _, _ => true
+
+def nodupB : List Nat → Bool
+  | [] => true
+  | x :: xs => !xs.contains x && nodupB xs
+
+/-- the values of `levels_map` are pairwise distinct (`enumerate` positions of `--order-source`,
+then `max + 1` for every appended source) -/
+def Order.levelsDistinct (o : Order) : Bool := nodupB (o.map (·.2))
+
 /-! ### label → source -/
 
 /-- one GVF: its `##source=`, `##parser=` and the (gene id, label) of its records, in file order -/
@@ -272,6 +303,14 @@ def setStr (o : Order) (s : SrcSet) : List Src × String :=
     | .many _ => none
   (levels.filter (fun x => s.contains x && x != "+" && x != "*"),
    if s.contains "*" then "ALL" else if s.contains "+" then "PLUS" else "")
+
+/-- `VariantSourceSet.levels` without the frozenset keys: the plain keys of the order by level —
+the list `write_summary_table` draws its source combinations from -/
+def Order.plain (o : Order) : List Src :=
+  (isort (fun (a b : OKey × Nat) => a.2 ≤ b.2) o).filterMap fun kv =>
+    match kv.1 with
+    | .one x => some x
+    | .many _ => none
 
 def DbKey.render : DbKey → String
   | .sources n suf => "-".intercalate (n ++ (if suf == "" then [] else [suf]))
@@ -496,6 +535,71 @@ def summarize (env : SrcEnv) (rule : Re) (exc : Option Re) (pool : List PRec) :
   | .ok ks => .ok (ks.foldl (fun t k => sumAdd t k.1 k.2) [])
 
 def SumTable.total (t : SumTable) : Nat := (t.map (·.2.1)).sum
+
+/-- `n_total` of the row of the source combination `s` (0 when the table has no such key) —
+what `get_stringified_summary_entry` prints -/
+def SumTable.count (t : SumTable) (s : SrcSet) : Nat :=
+  match t.find? (fun e => sameSet e.1 s) with
+  | some e => e.2.1
+  | none => 0
+
+/-! ### the two commands under the same options -/
+
+/-- the options `splitFasta` and `summarizeFasta` share: parsed `--order-source`,
+`--group-source`, the GVF files (in command-line order) and the annotation's transcript → gene map -/
+structure CliOpts where
+  order0 : Order
+  group : GroupMap
+  gvfs : List Gvf
+  tx2gene : List (Field × Field)
+
+/-- the order both commands end up with (`splitterOrder … .1 = summarizerOrder …`, proved) -/
+def CliOpts.order (x : CliOpts) : Order := summarizerOrder x.group x.order0 x.gvfs
+
+/-- M: `split_fasta` after loading: `VariantSourceSet(x)` for every `--additional-split`,
+`create_wildcard_map`, `split` -/
+def cliSplit (x : CliOpts) (maxGroups : Int) (additional : List SrcSet) (pool : List PRec) :
+    Except PErr Dbs :=
+  let os := splitterOrder x.group x.order0 x.gvfs
+  if !(additional.all fun a => a.all fun y => isWild y || os.1.has (.one y)) then .error .valueError
+  else
+    match wildcardMap os.1 os.2 with
+    | none => .error .valueError
+    | some wm =>
+      split { env := { tx2gene := x.tx2gene, getSource := sourceFirst x.gvfs, group := x.group,
+                       order := os.1, wildcard := wm },
+              maxGroups := maxGroups, additional := additional } pool
+
+/-- the environment `summarize_fasta` counts in -/
+def CliOpts.sumEnv (x : CliOpts) : SrcEnv :=
+  { tx2gene := x.tx2gene, getSource := sourceLast x.gvfs, group := x.group,
+    order := x.order, wildcard := [] }
+
+/-- M: `summarize_fasta` after loading: `count_peptide_source` -/
+def cliSummarize (x : CliOpts) (rule : Re) (exc : Option Re) (pool : List PRec) :
+    Except PErr SumTable :=
+  summarize x.sumEnv rule exc pool
+
+/-- no key of the order contains a wildcard character (`+`, `*`) -/
+def Order.noWildKeys (o : Order) : Bool :=
+  o.all fun kv => match kv.1 with
+    | .one x => !isWild x
+    | .many s => !s.any isWild
+
+def nodupS : List Src → Bool
+  | [] => true
+  | x :: xs => !xs.contains x && nodupS xs
+
+/-- the combination keys of the order are sets (duplicate-free lists) -/
+def Order.keysAreSets (o : Order) : Bool :=
+  o.all fun kv => match kv.1 with
+    | .one _ => true
+    | .many s => nodupS s
+
+/-- no (gene id, label) occurs in GVFs of two different sources -/
+def noSharedLabel (gvfs : List Gvf) : Bool :=
+  gvfs.all fun g1 => gvfs.all fun g2 =>
+    g1.source == g2.source || g1.labels.all fun l => !g2.labels.contains l
 
 def SumTable.get (t : SumTable) (s : SrcSet) : Option (Nat × List (Nat × Nat)) :=
   match t.find? (fun e => sameSet e.1 s) with
